@@ -34,7 +34,8 @@ DT = dict(NULL=0, NEEDED=1, PLTRELSZ=2, PLTGOT=3, HASH=4, STRTAB=5, SYMTAB=6, RE
           INIT=12, FINI=13, SONAME=14, RPATH=15, SYMBOLIC=16, REL=17, RELSZ=18, RELENT=19, PLTREL=20, DEBUG=21, TEXTREL=22,
           JMPREL=23, BIND_NOW=24, RUNPATH=29, FLAGS=30, RELRSZ=35, RELR=36, RELRENT=37, GNU_HASH=0x6ffffef5,
           FLAGS_1=0x6ffffffb, VERNEED=0x6ffffffe, VERNEEDNUM=0x6fffffff, RELACOUNT=0x6ffffff9)
-STR_TAGS = {1: 'needed', 14: 'soname', 15: 'rpath', 29: 'runpath'}
+STR_TAGS = {1: 'needed', 14: 'soname', 15: 'rpath', 29: 'runpath', 0x7ffffffd: 'auxiliary', 0x7fffffff: 'filter',
+            0x6ffffefa: 'config', 0x6ffffefb: 'depaudit', 0x6ffffefc: 'audit'}
 _T = {}
 
 
@@ -166,7 +167,9 @@ def gen(rng):
         extra += [(0x70000001, 7)]          # processor-specific code without a name for this machine
     if osabi == 6:
         extra += [(0x6000000d, 0), (0x6000000e, 1), (0x60000011, 5), (0x6000001a, 1)]
-    extra += [(0x6fffff00 - 2 * rng.randrange(5), 77), (rng.choice([0x12345678, 0x60000fff, 38, 0x7fffffff]), 5)]
+    extra += [(rng.choice([0x6fffff00, 0x6ffffefe, 0x6ffffef8]), 77), (rng.choice([0x12345678, 0x60000fff, 38]), 5)]
+    # the other string-valued tags (filter and auxiliary libraries, audit libraries, configuration file)
+    extra += [(t, so[rng.choice(strs[:3])]) for t in (0x7ffffffd, 0x7fffffff, 0x6ffffefa, 0x6ffffefb, 0x6ffffefc) if rng.random() < 0.4]
     rng.shuffle(extra)
     tags += extra[:rng.randint(0, len(extra))]
     rng.shuffle(tags)
